@@ -87,7 +87,23 @@ func run(b *harness.B) {
 			w = map[string]int{"v2-form": 6, "v2-revise": 8, "v2-expire": 8, "v2-pay": 2, "v2-arb": 0, "v2-attest": 0, "v2-renew": 1, "v2-proof": 1, "v2-sf": 1, "v2-eph": 1, "v2-foundation": 0, "v2-revise+resolve": 0}
 		}
 		for done := 0; done < blocks; {
-			done += c.Grow(1+rng.IntN(12), chaingen.Plan{MaxTxns: 7, Weights: w, TimeMode: []string{"schedule", "jitter"}[rng.IntN(2)]})
+			step := 1 + rng.IntN(12)
+			// the block at exactly the ephemeral-output height is the first one inside the claim: it always carries
+			// in-block spends (the templates of the greedy variants about in-block parents)
+			if fix := net.N.HardforkV2.EphemeralOutputHeight; fix >= net.N.HardforkV2.AllowHeight && c.Height() < fix && c.Height()+uint64(step) >= fix {
+				if c.Height()+1 < fix {
+					step = int(fix - c.Height() - 1)
+				} else {
+					n := c.Grow(1, chaingen.Plan{MaxTxns: 5, Only: []string{"v2-eph", "v2-pay"}})
+					done += n
+					b.Count("blocks_at_the_ephemeral_output_height_with_in_block_spends", n)
+					if n == 0 {
+						done += c.Grow(1, chaingen.Plan{MaxTxns: 3})
+					}
+					continue
+				}
+			}
+			done += c.Grow(step, chaingen.Plan{MaxTxns: 7, Weights: w, TimeMode: []string{"schedule", "jitter"}[rng.IntN(2)]})
 			if c.Height() > 2 && rng.IntN(4) == 0 {
 				k := min(1+rng.IntN(5), int(c.Height()))
 				for r := 0; r < k; r++ {
@@ -249,6 +265,26 @@ func greedy(b *harness.B, c *chaingen.Chain, led *chainmon.Ledger, cs consensus.
 				}
 			}
 			break
+		}
+	}
+	// an in-block parent whose claimed value is larger than the value of the output the block created, the surplus
+	// paid out (from the ephemeral-output height on: below it such parents are outside the claim)
+	if cs.Index.Height+1 >= c.Net.N.HardforkV2.EphemeralOutputHeight {
+	eph:
+		for i, t := range orig.V2Transactions() {
+			for k, in := range t.SiacoinInputs {
+				if in.Parent.StateElement.LeafIndex != types.UnassignedLeafIndex {
+					continue
+				}
+				b4 := chaingen.CloneBlock(orig)
+				t4 := &b4.V2.Transactions[i]
+				t4.SiacoinInputs[k].Parent.SiacoinOutput.Value = t4.SiacoinInputs[k].Parent.SiacoinOutput.Value.Add(types.Siacoins(1000))
+				t4.SiacoinOutputs = append(t4.SiacoinOutputs, types.SiacoinOutput{Value: types.Siacoins(1000), Address: types.VoidAddress})
+				b4.V2.Transactions = b4.V2.Transactions[:i+1]
+				c.SignV2(cs, t4, nil)
+				try("v2-in-block-parent-claims-more-than-the-output-holds", b4)
+				break eph
+			}
 		}
 	}
 	// siafund outputs whose 64-bit sum wraps around to the input sum (two extra outputs of 2^63 each)
